@@ -1,6 +1,16 @@
 (* Check_C08.v — case format and per-case verdicts for the C08 correspondence run. *)
 From V Require Export CaseLib RespondSpec.
 
+(* one request of a history on one Context: the operation matched (declared produces, the route's produces and
+   security alternatives in the order the route uses, declared codes), the request (Accept, HEAD, what it presents
+   to each scheme - inside sec), the handler's result, and what was observed inside the history (ran, o) and of the
+   same request answered by a fresh Context (fresh_ran, fresh); comparable = the fresh Context consults the schemes
+   of each alternative in the same order (a Go map iteration decides that order per router) *)
+Inductive hstep :=
+| HStep (declared : list bytes) (route_produces : list bytes) (codes : list nat) (lines : list bytes) (head : bool)
+        (sec : sec_cfg) (dt : data) (tag : bytes) (ran : bool) (o : obs)
+        (comparable : bool) (fresh_ran : bool) (fresh : obs).
+
 Inductive case :=
 (* one request through the real API handler of a one-operation description *)
 | CServe (d : bytes) (registered : list bytes) (declared : list bytes) (route_produces : list bytes) (codes : list nat)
@@ -11,7 +21,25 @@ Inductive case :=
           (cached : option bytes) (lines : list bytes) (head : bool)
           (marker : bytes)                          (* security.FailedBasicAuth of the request, as observed *)
           (auth : option (bytes * basic_attempt))   (* the basic authenticator that examined the request first: configured realm, attempt *)
-          (dt : data) (tag : bytes) (o : obs).
+          (dt : data) (tag : bytes) (o : obs)
+(* several requests answered one after the other by ONE Context of a description with several operations *)
+| CHist (d : bytes) (registered : list bytes) (steps : list hstep).
+
+(* one step: (corresponds to the model of the single request, satisfies the property's predicate); both also
+   demand that the answer inside the history is the answer of a fresh Context *)
+Definition step_check (d : bytes) (registered : list bytes) (st : hstep) : bool * bool :=
+  match st with
+  | HStep declared rp codes lines head sec dt tag ran o comparable fresh_ran fresh =>
+    match parse_accept lines with
+    | Some specs =>
+      let q := mkhreq (mkroute rp true codes) specs head sec dt in
+      let order_ok := list_eqb bytes_eqb rp (route_produces_of d declared) in
+      let same := negb comparable || (obs_eqb o fresh && Bool.eqb ran fresh_ran) in
+      (obs_agree (serve_req d registered q) tag o && Bool.eqb ran (req_runs q) && order_ok && same,
+       req_prop d registered q tag ran o && order_ok && same)
+    | None => (false, true)
+    end
+  end.
 
 
 Definition check_case (c : case) : N :=
@@ -34,5 +62,11 @@ Definition check_case (c : case) : N :=
                bytes_eqb marker (model_marker auth))
               (direct_auth_prop d registered produces rt cached specs head auth dt tag o)
     | None => verdict false true
+    end
+  | CHist d registered steps =>
+    match steps with
+    | [] => verdict false true
+    | _ => let rs := map (step_check d registered) steps in
+           verdict (forallb fst rs) (forallb snd rs)
     end
   end.
